@@ -691,13 +691,13 @@ PROPS['C02']['obligations'].append(
 
 
 PROPS['C04']['obligations'] += [
-    O('C04.pair_sql_a%d' % i, 'harness.c04_schedules', 'pair', None, 900,
+    O('C04.pair_sql_a%d' % i, 'harness.c04_schedules', 'pair', 300, 900,
       'same schedules on the SQL datastore (in-memory sqlite, one shared connection): A = %s' % n,
       'B over 16 RPC kinds, k in 0..11', env={'VERIF_SLICE': str(i), 'VERIF_C04_SQL': '1'}, no_validate=True)
     for i, n in enumerate(_C04_RPCS)
 ]
 PROPS['C04']['outside'] = 'more than one preemption; four or more concurrent calls, triples outside the 8-kind menu; pre-states other than the stated one'
-PROPS['C04']['encoded'] += ['SQLDataStore.* (thorough tier)']
+PROPS['C04']['encoded'] += ['SQLDataStore.*']
 
 
 _C01_MENU = ['CreateStudy', 'SetInactive', 'SetActive', 'DeleteStudy', 'CreateTrial', 'Suggest', 'CompleteNewest', 'AddMeasurement1',
